@@ -11,7 +11,8 @@ META = {
                  "statement + effect-order anchor + snapshot correspondence and oracle",
     "text": "Kernel-checked: for every font whose layer directories and glif file names are single plain path "
             "components - which every font returned by the load model is (C09_loaded_fonts_safe; finding F8 was "
-            "repaired in 59e280a/8d15b4b) -, every target and every prior file system: nothing outside the target changes, whatever the outcome (C09_frame); after a successful save "
+            "repaired in 59e280a/8d15b4b) and so is every font built or modified through the container API "
+            "(C09_safe_when_built, C09_safe_when_loaded_and_modified, from C06/C07) -, every target and every prior file system: nothing outside the target changes, whatever the outcome (C09_frame); after a successful save "
             "the file system at and below the target is `place t (tree_of f)`, a function of the font alone "
             "(C09_tree_function, C09_same_as_fresh); each optional file / directory is in that tree exactly when its "
             "part is non-empty (C09_optional_*). The former F8 witness (glif path ../../outside.glif) is kept as a "
@@ -37,8 +38,10 @@ MUST_BE_REJECTED = {0, 1, 2, 3, 6, 7, 8, 9, 10, 12, 13}
 
 ASSUMPTIONS = [
     "well-formed prior file system (every entry's parent is a directory) for C09_tree_function",
-    "C09_safe_when_built (fonts built through the API have single-component paths) is C07's theorem about the "
-    "file-name algorithm and is not restated here",
+    "C09_safe_when_built / C09_frame_built / C09_tree_function_built: for fonts built through the API the path "
+    "hypothesis is discharged from C06_reachable_plain (container model Model/Layer.v) through the abstraction "
+    "rel_of = Path::components of Model/Store.v; store keys are plain lists under C16's invariant "
+    "(C09_store_keys_plain)",
 ]
 
 
